@@ -44,7 +44,14 @@ class Bench:
         self.eq = equipment()
         self.sites = [chr(ord('A') + i) for i in range(nlinks + 1)]
         links = [(self.sites[i], self.sites[i + 1], 80) for i in range(nlinks)]
-        self.net, _, _ = designed(line_or_mesh_json(self.sites, links), self.eq)
+        js = line_or_mesh_json(self.sites, links)
+        # the last link is a patch cord: its two OMS consist of a single Fused element (no fibre, no amplifier)
+        a, b = self.sites[-2], self.sites[-1]
+        for x, y in ((a, b), (b, a)):
+            el = next(e for e in js['elements'] if e['uid'] == f'fiber ({x} -> {y})')
+            el.clear()
+            el.update({'uid': f'fiber ({x} -> {y})', 'type': 'Fused', 'params': {'loss': 1}})
+        self.net, _, _ = designed(js, self.eq)
         self.nodes = node_map(self.net)
         self.nmin, self.nmax, self.idxmin, self.idxmax = nmin, nmax, idxmin, idxmax
         self.unusable = {int(k): set(v) for k, v in unusable.items()}
